@@ -176,6 +176,17 @@ CHECKS = {
          'Hooks on NameGenerator/Obfuscator/Scope count what ran.',
     note=TRUSTED + 'vk/ref/refscope.py (ES5 10.2/10.5/12.14/13, self-tested); programs with with/eval are out of scope and counted.',
     design='DESIGN.md section 3, C07'),
+ 'C14': dict(
+    technique='history monitor: recorded operation histories (full / abandon / failpoint-raise / shortcut / str) over pools of trees and printer objects, results vs goldens from fresh printers, deep fingerprints of trees and shared objects after every step, constructor-count invariants',
+    level='exploration',
+    text='Operations on 12 trees x 11 reusable printer objects (pretty, minify, obfuscating compositions, extractor): complete calls, calls '
+         'abandoned after k fragments (generator closed), calls in which a failpoint raises inside a rule, the es5.pretty_print/minify_print '
+         'shortcuts and str(node). After every step the reflective fingerprint (positions, token maps, comments, sourcepath) of every pool tree '
+         'and of the shared objects (ElisionJoinAttr.sep, both definitions tables, rule tables) must equal its creation snapshot, every complete '
+         'call must equal the golden of a freshly built identical printer on a freshly parsed tree, and each complete call must construct its '
+         'own Indentator / Obfuscator. All histories of length<=2 (thorough 3) over a reduced alphabet + random histories of 50-200 steps.',
+    note=TRUSTED + 'goldens come from fresh printers in the same process; behaviour of a generator after it raised is not demanded.',
+    design='DESIGN.md section 3, C14'),
 }
 
 PENDING = 'monitor planned in DESIGN.md section 3 but not built yet in this round; no claim is made'
